@@ -18,6 +18,7 @@ Definition op_in_fragment (o : op) : Prop :=
   | OCommit _ t _ _ _ | OFetchOffset _ t _ | OLookupOffset _ t _ => topic_ok t
   | OPutGroup _ | OFetchGroup _ | ODeleteGroup _ | OMetadata _ => True
   | ODeleteTopic _ | OUpdateCfg _ | OListOffsets | OListGroups => False
+  | OUpdate _ _ => False
   end.
 
 Record R (im : inmem) (et : etcd) : Prop := mkR {
